@@ -1000,6 +1000,28 @@ class Interp:
                 r = a * b
                 return [r & M64 - 1, int(r >= M64)]
             raise Incomplete('umul.with.overflow on symbolic values')
+        m_ = re.match(r'llvm\.(ctlz|cttz|ctpop|bswap|bitreverse)\.i(\d+)$', name)
+        if m_:
+            x = args[0]
+            w = int(m_.group(2))
+            if not isinstance(x, int):
+                raise Incomplete('%s of a symbolic value' % m_.group(1))
+            x &= (1 << w) - 1
+            k = m_.group(1)
+            if k == 'ctpop':
+                return bin(x).count('1')
+            if k == 'ctlz':
+                return w - x.bit_length()
+            if k == 'cttz':
+                return w if x == 0 else (x & -x).bit_length() - 1
+            if k == 'bswap':
+                return int.from_bytes(x.to_bytes(w // 8, 'little'), 'big')
+            return int(format(x, '0%db' % w)[::-1], 2)
+        m_ = re.match(r'llvm\.u(add|sub)\.with\.overflow\.i(\d+)$', name)
+        if m_ and isinstance(args[0], int) and isinstance(args[1], int):
+            w = int(m_.group(2))
+            r = args[0] + args[1] if m_.group(1) == 'add' else args[0] - args[1]
+            return [r & ((1 << w) - 1), int(r < 0 or r >> w != 0)]
         if name == 'llvm.trap':
             s.sink('trap', 'llvm.trap')
         if name.startswith('llvm.is.constant'):
